@@ -112,17 +112,33 @@ def execute(case):
   tag = targets.TAGS[case['tag']]
   obs = {'op': case['op']}
   op = case['op']
+  req = None
   try:
+    if op in ('set_tagged', 'replace', 'list'):
+      req, enc = graphs.encode(root)
+      name_of = graphs.unique_fn_names(enc, req)
+      nodes0 = C15.reachable_buildables(root)
+      req.update({'p': 'graph', 'q': [], 'tag': targets.tag_no(tag), 'value': {'a': 'NEW1'},
+                  'tag_sub': [[targets.tag_no(a), targets.tag_no(b)] for a in targets.TAGS
+                              for b in targets.TAGS if issubclass(a, b)]})
     if op == 'set_tagged':
       before = snapshot(root)
       v = Tok(7777)
       fdl.set_tagged(root, tag=tag, value=v)
+      req['q'].append('set_tagged')
+      still = [n for n in C15.reachable_buildables(root) if id(n) in enc.ids]   # the property speaks of these
+      obs['m_set_tagged'] = graphs.cfg_shapes(still, enc, name_of, [(lambda x: x is v, 'NEW1')])
       obs['exact'] = check_exact(root, before, tag, v, deep=False)
       obs['n_hit'] = sum(len(tagged_keys(b['node'], tag)) for b in before.values())
     elif op == 'replace':
       before = snapshot(root)
       v = [Tok(7778)]
       selectors.select(root, tag=tag, check_nonempty=False).replace(v)
+      req['q'].append('set_tagged')
+      still = [n for n in C15.reachable_buildables(root) if id(n) in enc.ids]
+      obs['m_set_tagged'] = graphs.cfg_shapes(
+          still, enc, name_of,
+          [(lambda x: isinstance(x, list) and id(x) not in enc.ids and x == v, 'NEW1')])
       obs['exact'] = check_exact(root, before, tag, v, deep=True)
       obs['n_hit'] = sum(len(tagged_keys(b['node'], tag)) for b in before.values())
     elif op == 'list':
@@ -132,6 +148,8 @@ def execute(case):
           want |= set(ts)
       from fiddle._src import tagging
       got = tagging.list_tags(root)
+      req['q'].append('list_tags')
+      obs['m_list_tags'] = sorted(targets.tag_no(t) for t in got)
       obs['list_exact'] = set(got) == want
       sup = tagging.list_tags(root, add_superclasses=True)
       obs['list_super_ok'] = set(got) <= set(sup) and all(
@@ -189,12 +207,23 @@ def execute(case):
       obs['n_hit'] = 1
   except Exception as e:
     obs['raised'] = f'{type(e).__name__}: {e}'[:300]
-  return obs, None
+  return obs, (req if req and req['q'] else None)
 
 
 def compare(real, model):
   if model is None:
     return []
+  if 'op' in real:        # graph case
+    diffs = []
+    ns = graphs.norm_shapes
+    if 'm_set_tagged' in real:
+      keep = {e[0] for e in real['m_set_tagged']}     # Buildables still reachable afterwards
+      mm = [e for e in (model.get('set_tagged') or []) if e[0] in keep]
+      if ns(real['m_set_tagged']) != ns(mm):
+        diffs.append(('set_tagged', ns(real['m_set_tagged']), ns(mm)))
+    if 'm_list_tags' in real and real['m_list_tags'] != model.get('list_tags'):
+      diffs.append(('list_tags', real['m_list_tags'], model.get('list_tags')))
+    return diffs
   return argstore.diff_fields(real, model, FIELDS)
 
 
@@ -281,7 +310,7 @@ def nontrivial(case, real):
 def run(tier):
   return family.run_check(
       'C14', tier, lean_module='C14', cases=cases, execute=execute, compare=compare,
-      oracle=oracle, nontrivial=nontrivial, widen=None, normalise_model=argstore.norm_model,
+      oracle=oracle, nontrivial=nontrivial, widen=None, normalise_model=lambda m: argstore.norm_model(m) if 'init' in m else m,
       floor_nontrivial=0.15, time_budget=150 if tier == 'quick' else 1500,
       extra_coverage={'rule': 'stage A: random signatures x histories of add_tag / remove_tag / set_tags / '
                       'clear_tags (by name and index), TaggedValue assignments and C03 edits, tag sets '
